@@ -68,7 +68,7 @@ fn convert_dir(dir: &Path) -> Result<HashMap<u8, String>> {
 
     for (p, i) in valid_paths.iter() {
         let full_path = dir.join(p);
-        if full_path.exists() {
+        if full_path.is_file() {
             out.insert(*i, full_path.into_os_string().into_string().unwrap());
         }
     }
